@@ -936,13 +936,15 @@ func (hash *SexpHash) SexpString(ps *PrintState) string {
 			// don't panic(err)
 		}
 	}
+	// onKey counts the entries actually printed; the bucket map can be
+	// non-empty (emptied buckets stay behind) when no key is live.
 	if displayHashInCurly {
-		if len(hash.Map) > 0 {
+		if onKey > 0 {
 			return str[:len(str)-1] + prettyEnd + origIndInner + "}"
 		}
 		return str + prettyEnd + origIndInner + "}"
 	}
-	if len(hash.Map) > 0 {
+	if onKey > 0 {
 		return str[:len(str)-1] + ")" + prettyEnd
 	}
 	return str + ")" + prettyEnd
